@@ -147,6 +147,7 @@ theorem unrest_done (H : Hyp a T) (R : Ptr → Rat) {F P h : List Word} {L nu0 :
 theorem useLoop (H : Hyp a T) (R : Ptr → Rat) {F P h : List Word} {L nu0 : Nat} (C : LoopCtx a T F P h L nu0) (seen : Nat) :
     ∀ (ps : List Ptr) (j i : Nat) (v : ExtendReturn),
       ps = ((List.range L).map (fun i => pre F i ++ P)).drop i → i ≤ L → j + seen = i + P.length → InvL a F P h nu0 i v →
+      (i = L → (extendLoopUse T R seen (h.take nu0) ps j v).1 = v) ∧
       (extendLoopUse T R seen (h.take nu0) ps j v).1.written = v.written ∧
       (extendLoopUse T R seen (h.take nu0) ps j v).1.makeFull = v.makeFull ∧
       InvL a F P h nu0 L (extendLoopUse T R seen (h.take nu0) ps j v).1 ∧
@@ -163,7 +164,7 @@ theorem useLoop (H : Hyp a T) (R : Ptr → Rat) {F P h : List Word} {L nu0 : Nat
     have hiL : i = L := by omega
     subst hiL
     simp only [extendLoopUse, unRest, List.map_nil, List.sum_nil, Nat.sub_self, dsum]
-    exact ⟨(by first | rfl | trivial), (by first | rfl | trivial), I, (by first | rfl | trivial | grind)⟩
+    exact ⟨(by first | trivial | exact fun _ => rfl), (by first | rfl | trivial), (by first | rfl | trivial), I, (by first | rfl | trivial | grind)⟩
   | cons p ps ih =>
     intro j i v hps hi hj I
     have hiL : i < L := by
@@ -181,7 +182,7 @@ theorem useLoop (H : Hyp a T) (R : Ptr → Rat) {F P h : List Word} {L nu0 : Nat
       have hz' : v.nextUse = 0 := by simpa using hz
       have hd : ∀ k, 1 ≤ k → k ≤ h.length → ¬ live a (gm1 F i ++ P ++ h.take k) := fun k h1 h2 => I.dead k (by omega) h2
       have hun := unrest_done H R C (L - i) i (j + seen + 1) rfl (by omega) hd
-      refine ⟨(by first | rfl | trivial), (by first | rfl | trivial), ⟨by rw [hz']; omega, by rw [hz']; have := H.wf.order_ge; omega, by rw [hz']; simp, ?_⟩, ?_⟩
+      refine ⟨fun hc => by omega, (by first | rfl | trivial), (by first | rfl | trivial), ⟨by rw [hz']; omega, by rw [hz']; have := H.wf.order_ge; omega, by rw [hz']; simp, ?_⟩, ?_⟩
       · intro k hk1 hk2; exact hun.2 k (by omega) hk2
       · rw [hp, hps', ← ptrs_drop F P L i hiL, hun.1]
     · simp only [hz, Bool.false_eq_true, if_false]
@@ -191,8 +192,8 @@ theorem useLoop (H : Hyp a T) (R : Ptr → Rat) {F P h : List Word} {L nu0 : Nat
       generalize hret : extendLeft T R ((h.take nu0).take v.nextUse) v.backIn (pre F i ++ P) (i + P.length + 1) = ret at hs hnext
       have I' := hnext (v.adjust + ret.prob) v.makeFull v.written
       have := ih (j+1) (i+1) _ hps' (by omega) (by omega) I'
-      obtain ⟨h1, h2, h3, h4⟩ := this
-      refine ⟨h1, h2, h3, ?_⟩
+      obtain ⟨_, h1, h2, h3, h4⟩ := this
+      refine ⟨fun hc => by omega, h1, h2, h3, ?_⟩
       rw [h4]
       have hsplit : L - i = (L - (i+1)) + 1 := by omega
       rw [hsplit]
